@@ -151,6 +151,9 @@ def _specials(group, env):
     rt = F.sqrt(F.div(F.neg(F.one), F.el(S.Z)))
     if rt is not None:
         out += [("u^2=-1/Z", rt), ("u^2=-1/Z", F.neg(rt))]
+    # inputs whose SWU image is a kernel point of the isogeny (result: the identity); computed by the
+    # model by factoring the isogeny's denominators and inverting SWU
+    out += [("isogeny-kernel", u) for u in h2c.kernel_inputs(group)[0]]
     if group == "E1":
         out += [("half", (P - 1) // 2), ("half", (P + 1) // 2)]
         out += [("seeded", g.randrange(P)) for _ in range(8)]
